@@ -8,6 +8,8 @@ pub mod c04;
 pub mod c05;
 pub mod c06;
 pub mod c07;
+pub mod c08;
+pub mod c09;
 pub mod common;
 
 pub struct Prop {
@@ -29,6 +31,8 @@ pub static PROPS: &[Prop] = &[
     Prop { id: "C05", run: c05::run, meta: c05::meta, single_process: false, budget_quick_s: 120, budget_thorough_s: 900, handles_foreign_panics: false },
     Prop { id: "C06", run: c06::run, meta: c06::meta, single_process: false, budget_quick_s: 120, budget_thorough_s: 900, handles_foreign_panics: false },
     Prop { id: "C07", run: c07::run, meta: c07::meta, single_process: false, budget_quick_s: 120, budget_thorough_s: 900, handles_foreign_panics: false },
+    Prop { id: "C08", run: c08::run, meta: c08::meta, single_process: false, budget_quick_s: 120, budget_thorough_s: 900, handles_foreign_panics: false },
+    Prop { id: "C09", run: c09::run, meta: c09::meta, single_process: false, budget_quick_s: 120, budget_thorough_s: 900, handles_foreign_panics: false },
 ];
 
 pub fn find(id: &str) -> Option<&'static Prop> {
